@@ -575,6 +575,13 @@ func oblOK(r Result) bool {
 	return r.V.Status == "unsat"
 }
 
+func nonNil(s []string) []string {
+	if s == nil {
+		return []string{}
+	}
+	return s
+}
+
 func loadBaseline(path string) (map[string]bool, map[string]bool) {
 	out := map[string]bool{}
 	fns := map[string]bool{}
@@ -631,17 +638,17 @@ func buildEvidence(id, tier string, seed int, ps *PropertySpec, reports []oblRep
 			slow = append(slow, r)
 		}
 	}
-	var as []string
+	as := []string{}
 	for a := range assumptions {
 		as = append(as, a)
 	}
 	sort.Strings(as)
-	var ab []string
+	ab := []string{}
 	for a := range abstracted {
 		ab = append(ab, a)
 	}
 	sort.Strings(ab)
-	var kfs []string
+	kfs := []string{}
 	for k := range knownHit {
 		kfs = append(kfs, k)
 	}
@@ -667,14 +674,14 @@ func buildEvidence(id, tier string, seed int, ps *PropertySpec, reports []oblRep
 		"from_cache":               fromCache,
 		"solver_seconds":           solverTime,
 		"load_seconds":             loadS,
-		"undecided":                undecided,
+		"undecided":                nonNil(undecided),
 		"known_findings":           kfs,
 		"abstracted":               ab,
-		"outside_subset":           unsupported,
-		"missing_baseline":         missing,
+		"outside_subset":           nonNil(unsupported),
+		"missing_baseline":         nonNil(missing),
 		"slow_obligations":         slow,
 		"not_decided":              ps.NotDecided,
-		"violating_obligations":    violations,
+		"violating_obligations":    nonNil(violations),
 		"evaluations":              len(reports),
 		"distinct_nontrivial":      len(reports),
 		"rule":                     "one SMT query per obligation (per split instance and per return statement); all are distinct conditions generated from the current source",
